@@ -135,6 +135,10 @@ CO_ERR COSdoResponse(CO_SDO *srv)
     } else if (srv->Blk.State == BLK_DNWAIT) {
         if ((cmd & 0xE3) == 0xC1) {
             result = COSdoEndDownloadBlock(srv);
+        } else if (srv->Buf.Num > 0) {
+            /* last block is still buffered: only 'end block download' is allowed */
+            COSdoAbort(srv, CO_SDO_ERR_CMD);
+            COSdoAbortReq(srv);
         } else {
             srv->Blk.State = BLK_DOWNLOAD;
             result = COSdoDownloadBlock(srv);
